@@ -513,6 +513,35 @@ def gen_rat():
         yield C("-", C("-", r))
 
 
+# non-ASCII white space, format, combining, private-use and supplementary-plane characters
+UNI_CHARS = ["\u00a0", "\u0085", "\u1680", "\u2003", "\u2028", "\u2029", "\u202f", "\u3000", "\ufeff", "\u00ad",
+             "\u200b", "\u0301", "\ue000", "\U0001f600", "\U000e0001", "\u061c"]
+
+
+def uni_atoms():
+    out = []
+    for u in UNI_CHARS:
+        out += [u, u + "a", "a" + u, "a" + u + "b", u + u]
+    out += ["\u00a0\u2028", "a\u0301\u00a0", "\u3000 ", " \u00a0"]
+    return out
+
+
+def gen_unicode():
+    for x in uni_atoms():
+        yield A(x)
+        yield C(x, A("a"))
+        yield C(x, A("a"), I(1))
+        yield C("f", A(x))
+        yield C("-", A(x))
+        yield C("-", A(x), A(x))
+        yield L([A(x)])
+        yield L([A(x)], Vr(1))
+        yield St(x)
+        yield St(x, Vr(1))
+        yield C("f", St(x))
+        yield C("{}", A(x))
+
+
 def families(tier):
     """-> list of (family name, table name, generator thunk)"""
     thorough = tier == "thorough"
@@ -543,6 +572,7 @@ def families(tier):
         fam.append(("vocab3", "default", g))
     fam.append(("nests", "default", lambda: gen_nests(NEST_F, NEST_LT[:6] if thorough else NEST_LQ)))
     fam.append(("lists", "default", lambda: gen_lists(tier)))
+    fam.append(("unicode", "default", gen_unicode))
     fam.append(("dvar", "default", gen_dvar))
     fam.append(("rat", "default", gen_rat))
     # user operator tables: only terms that mention the user operator
